@@ -607,7 +607,7 @@ def dict_method(I, st, ref, name):
     def get(I, st, a, k):
         d = D(st)
         default = a[1] if len(a) > 1 else k.get("default", None)
-        if is_z3(a[0]):
+        if M.has_symkey(a[0]) or M.dict_symkeyed(st.get(ref)):
             for s2, v in M.dict_symbolic_get(I, st, st.get(ref), a[0]):
                 yield s2, (default if isinstance(v, Exc) else v)
             return
@@ -624,6 +624,8 @@ def dict_method(I, st, ref, name):
 
     def update(I, st, a, k):
         d = D(st)
+        if M.dict_symkeyed(st.get(ref)) or (a and isinstance(a[0], Ref) and st.get(a[0]).kind == "dict" and M.dict_symkeyed(st.get(a[0])) and d):
+            raise Unsupported("dict.update with symbolic keys")
         if a:
             src = a[0]
             if isinstance(src, Ref) and st.get(src).kind == "dict":
@@ -637,6 +639,8 @@ def dict_method(I, st, ref, name):
 
     def pop(I, st, a, k):
         d = D(st)
+        if M.dict_symkeyed(st.get(ref)):
+            raise Unsupported("dict.pop with symbolic keys")
         key = I.hashable(a[0])
         if key in d:
             yield st, d.pop(key)
@@ -647,6 +651,8 @@ def dict_method(I, st, ref, name):
 
     def setdefault(I, st, a, k):
         d = D(st)
+        if M.dict_symkeyed(st.get(ref)):
+            raise Unsupported("dict.setdefault with symbolic keys")
         key = I.hashable(a[0])
         if key not in d:
             d[key] = a[1] if len(a) > 1 else None
